@@ -4,7 +4,8 @@
 #   2. full .vo build of model + proofs (coq_makefile, -j16, under timeout)
 #   3. extract the model entry point and build the OCaml driver
 # Serialised by a lock so that concurrent checks do not race.
-# exit: 0 ok, 2 translator rejected the source, 3 coq build failed, 4 driver build failed
+# exit: 0 ok, 2 table translator rejected the source, 3 some Coq file does not check (partial
+#       build: see build/stale.txt; the driver is built when model/Driver.vo exists), 4 driver build failed
 set -u
 VERIF="$(cd "$(dirname "$0")/.." && pwd)"
 REPO="${D2P_REPO:-/repo}"
@@ -13,15 +14,24 @@ mkdir -p build
 exec 9>build/.lock
 flock 9
 python3 tools/gen_tables.py "$REPO" coq/gen/Tables.v 2>build/translator.err || { cat build/translator.err >&2; exit 2; }
+# source translator (pure functions -> coq/gen/Source.v).  When it rejects the source there is
+# no Source.v: gen/Source.vo and what depends on it (proofs/Source*.v and the property files
+# that use them) fail below, everything else still builds (make -k, exit 3 = partial build)
+python3 tools/gen_source.py "$REPO" coq/gen/Source.v 2>build/translator_source.err || cat build/translator_source.err >&2
 cd coq
 if [ ! -f Makefile.coq ] || [ _CoqProject -nt Makefile.coq ]; then
   coq_makefile -f _CoqProject -o Makefile.coq >/dev/null 2>&1 || exit 3
 fi
-if ! timeout 3000 make -f Makefile.coq -j16 ${D2P_DEV_KEEP_GOING:+-k} >"$VERIF/build/coq.log" 2>&1; then
+PARTIAL=0
+if ! timeout 3000 make -f Makefile.coq -j16 -k >"$VERIF/build/coq.log" 2>&1; then
   grep -B2 -A12 "^Error\|Error:" "$VERIF/build/coq.log" | head -60 >&2
-  # D2P_DEV_KEEP_GOING is a developer aid (never set by the checks): build the
-  # driver although some proof file fails
-  [ -n "${D2P_DEV_KEEP_GOING:-}" ] && [ -f model/Driver.vo ] || exit 3
+  PARTIAL=1
+  # some file does not check: remove every .vo that is not up to date (the failed files and
+  # everything depending on them), so that nothing stale can be loaded; the checks of the
+  # properties whose files still compile go on, the others report the broken obligation
+  make -f Makefile.coq -n -k 2>/dev/null | grep -o '[A-Za-z_]*/[A-Za-z0-9_]*\.v\b' | sort -u >"$VERIF/build/stale.txt"
+  while read -r f; do rm -f "${f}o" "${f}ok" "${f}os"; done <"$VERIF/build/stale.txt"
+  [ -f model/Driver.vo ] || exit 3
 fi
 mkdir -p extract/build
 cd extract/build
@@ -32,4 +42,5 @@ if [ ! -x d2p_driver ] || [ ../../model/Driver.vo -nt d2p_driver ] || [ ../drive
   timeout 600 ocamlfind ocamlopt d2p.mli d2p.ml driver.ml -o d2p_driver.tmp >>"$VERIF/build/extract.log" 2>&1 || { cat "$VERIF/build/extract.log" >&2; exit 4; }
   mv d2p_driver.tmp d2p_driver
 fi
+[ "$PARTIAL" = 1 ] && exit 3
 exit 0
